@@ -27,6 +27,8 @@ Functions
 to_model_line(system)            the case line read by ocaml/analysis/driver.ml
 to_cellml(system, naming, ...)   CellML 2.0 text
 random_system(rng, ...)          a generated system with ground truth
+add_same_component_members(...)  several variables of one class in ONE component (A.x ~ B.z ~ A.y), used in equations
+faults: ILL_POSED (7 single faults), variant_combination (pairs / triples), decision_table_systems()
 variants: permute_equations, permute_variables, permute_components, permute_connections, rename_per_component
 class_of(system)                 {(c, v): class id}
 """
@@ -505,6 +507,11 @@ def random_system(rng, max_classes=8, p_ode=0.6, p_nla=0.35, flat_only=False):
             ci, vi = inited[0]
             b.sys["comps"][ci]["vars"][vi]["init"] = None
             b.set_init(k)
+    s_twins = 0
+    if ncomp > 1 and rng.random() < 0.5:
+        s_twins = add_same_component_members(rng, b.sys, p=rng.choice([0.3, 0.6]))
+        if s_twins:
+            feats.add("same_component_members")
     has_nla = any(kinds[k] in ("nla1", "nlasys") for k in kinds)
     has_ode = bool(states)
     typ = ("dae" if has_nla else "ode") if has_ode else ("nla" if has_nla else "algebraic")
@@ -536,6 +543,65 @@ def random_system(rng, max_classes=8, p_ode=0.6, p_nla=0.35, flat_only=False):
                   "features": sorted(feats), "variant": "base"}
     check_classes(s)
     return s
+
+
+def _rename_occurrences(e, f):
+    if e[0] == "V":
+        return ["V", f(e[1])]
+    if e[0] == "D":
+        return ["D", f(e[1]), f(e[2])]
+    if e[0] == "O":
+        return ["O", _rename_occurrences(e[1], f), _rename_occurrences(e[2], f)]
+    return e
+
+
+def add_same_component_members(rng, s, p=0.5, rounds=2):
+    """Give classes SEVERAL variables in one component, equivalent only indirectly (A.x ~ B.z ~ A.y; CellML cannot
+    map two variables of one component to each other): stars and chains of mappings of length >= 3, the new
+    variables taking part in equations (each occurrence of a class in an equation may use any of its variables of that
+    component) and possibly carrying the initial value.  The classes, hence the analysis expected, are unchanged.
+    Works in place; returns the number of variables added."""
+    comps = s["comps"]
+    added = 0
+    nxt = 1 + max([v["name"] for c in comps for v in c["vars"]] + [0])
+    for _ in range(rounds):
+        members = {}
+        for ci, c in enumerate(comps):
+            for vi, v in enumerate(c["vars"]):
+                members.setdefault(v["cls"], []).append((ci, vi))
+        for k, ms in sorted(members.items()):
+            if len({ci for ci, _ in ms}) < 2 or rng.random() >= p:
+                continue
+            ca, va = rng.choice(ms)
+            hubs = [(cb, vb) for cb, vb in ms if cb != ca and connectable(s, ca, cb)]
+            if not hubs:
+                continue
+            cb, vb = rng.choice(hubs)
+            comps[ca]["vars"].append({"name": nxt, "cls": k, "init": None})   # (permute_variables moves it around)
+            pos = len(comps[ca]["vars"]) - 1
+            nxt += 1
+            e = [[ca, pos], [cb, vb]]
+            s["conns"].insert(rng.randrange(len(s["conns"]) + 1), e if rng.random() < 0.5 else e[::-1])
+            added += 1
+            # the initial value may move to the new variable
+            inited = [v for v in comps[ca]["vars"] if v["cls"] == k and v["init"] == "c"]
+            if inited and rng.random() < 0.3:
+                inited[0]["init"] = None
+                comps[ca]["vars"][pos]["init"] = "c"
+    if added:
+        for c in comps:
+            by_cls = {}
+            cls_of_name = {}
+            for v in c["vars"]:
+                by_cls.setdefault(v["cls"], []).append(v["name"])
+                cls_of_name[v["name"]] = v["cls"]
+
+            def pick(n):
+                alts = by_cls[cls_of_name[n]]
+                return rng.choice(alts) if len(alts) > 1 and rng.random() < 0.5 else n
+            for q in c["eqs"]:
+                q["lhs"], q["rhs"] = _rename_occurrences(q["lhs"], pick), _rename_occurrences(q["rhs"], pick)
+    return added
 
 
 # ------------------------------------------------------------------------------------------ ill-posed variants
@@ -613,8 +679,101 @@ def variant_initialised_voi(rng, s):
     return s
 
 
+def _fresh(s):
+    names = [v["name"] for c in s["comps"] for v in c["vars"]]
+    classes = [v["cls"] for c in s["comps"] for v in c["vars"]]
+    ids = [q["id"] for c in s["comps"] for q in c["eqs"]]
+    return 1 + max(names + [0]), 1 + max(classes + [0]), 1 + max(ids + [1000])
+
+
+def variant_nonconstant_init(rng, s):
+    """a variable initialised with the name of a variable (of its component) whose class has no initial value
+    -> 'initialised using variable ..., which is not a constant' -> invalid"""
+    s = _copy(s)
+    inited = {v["cls"] for c in s["comps"] for v in c["vars"] if v["init"] is not None}
+    cands = []
+    for ci, c in enumerate(s["comps"]):
+        plain = [v["name"] for v in c["vars"] if v["cls"] not in inited]
+        for vi, v in enumerate(c["vars"]):
+            if v["init"] == "c" and plain:
+                cands.append((ci, vi, plain))
+    if not cands:
+        return None
+    ci, vi, plain = rng.choice(cands)
+    s["comps"][ci]["vars"][vi]["init"] = ["r", rng.choice(plain)]
+    s["truth"] = dict(s["truth"], variant="nonconstant_init", type="invalid")
+    return s
+
+
+def variant_two_vois(rng, s):
+    """a second variable of integration: d q / d t2 = cn with fresh classes q (initialised), t2 in a component that
+    already holds an ODE -> 'cannot both be the variable of integration' -> invalid"""
+    s = _copy(s)
+
+    def has_diff(e):
+        return e[0] == "D" or (e[0] == "O" and (has_diff(e[1]) or has_diff(e[2])))
+    cands = [ci for ci, c in enumerate(s["comps"]) if any(has_diff(q["lhs"]) or has_diff(q["rhs"]) for q in c["eqs"])]
+    if not cands:
+        return None
+    ci = rng.choice(cands)
+    n, k, i = _fresh(s)
+    c = s["comps"][ci]
+    c["vars"].append({"name": n, "cls": k, "init": "c"})
+    c["vars"].append({"name": n + 1, "cls": k + 1, "init": None})
+    c["eqs"].insert(rng.randrange(len(c["eqs"]) + 1), {"id": i, "lhs": ["D", n + 1, n], "rhs": ["N"]})
+    s["truth"] = dict(s["truth"], variant="two_vois", type="invalid")
+    return s
+
+
 ILL_POSED = [variant_extra_equation, variant_missing_equation, variant_uninitialised_state, variant_double_init,
-             variant_initialised_voi]
+             variant_initialised_voi, variant_nonconstant_init, variant_two_vois]
+
+
+def variant_combination(rng, s, faults):
+    """several faults at once (each function of ILL_POSED applied to the result of the previous one); faults that do
+    not apply are skipped.  truth['variant'] = 'combo', truth['faults'] = names of the faults applied; nothing is
+    asserted from the generator's side beyond what each listing's issues imply (checks/c05.py: decision table)."""
+    applied = []
+    cur = s
+    for f in faults:
+        nxt = f(rng, cur)
+        if nxt is not None:
+            cur = nxt
+            applied.append(f.__name__[len("variant_"):])
+    if len(applied) < 2:
+        return None
+    cur["truth"] = dict(cur["truth"], variant="combo", type=None, faults=applied)
+    return cur
+
+
+def decision_table_systems():
+    """Eight one-component systems, one for each combination of {a variable of unknown type, a state that is not
+    initialised, an over-constrained variable}, for AnalyserModel::Type's decision table:
+      U: 'a = u + cn' with u never computed;  S: 'd s/d t = cn' with s not initialised;  O: 'o = cn' twice.
+    (Every system also holds 'd z/d t = cn' with z initialised so that the voi exists in all of them.)"""
+    out = []
+    for bits in range(8):
+        hu, hs, ho = bits & 1, (bits >> 1) & 1, (bits >> 2) & 1
+        vs = [{"name": 0, "cls": 0, "init": None}, {"name": 1, "cls": 1, "init": "c"}]      # t, z
+        eqs = [{"id": 1001, "lhs": ["D", 0, 1], "rhs": ["N"]}]
+        n, i = 2, 1002
+        if hu:
+            vs += [{"name": n, "cls": n, "init": None}, {"name": n + 1, "cls": n + 1, "init": None}]
+            eqs.append({"id": i, "lhs": ["V", n], "rhs": ["O", ["V", n + 1], ["N"]]})
+            n, i = n + 2, i + 1
+        if hs:
+            vs.append({"name": n, "cls": n, "init": None})
+            eqs.append({"id": i, "lhs": ["D", 0, n], "rhs": ["N"]})
+            n, i = n + 1, i + 1
+        if ho:
+            vs.append({"name": n, "cls": n, "init": None})
+            eqs += [{"id": i, "lhs": ["V", n], "rhs": ["N"]}, {"id": i + 1, "lhs": ["V", n], "rhs": ["N"]}]
+        under = hu or hs
+        typ = ("unsuitably_constrained" if ho else "underconstrained") if under else ("overconstrained" if ho else "ode")
+        out.append({"comps": [{"parent": None, "vars": vs, "eqs": eqs}], "conns": [],
+                    "truth": {"type": typ, "roles": {}, "definer": {}, "kinds": {}, "features": ["decision_table"],
+                              "variant": "table", "cell": [hu, hs, ho]}})
+    return out
 
 # ------------------------------------------------------------------------------------------ re-orderings
 
